@@ -863,6 +863,79 @@ def run_long_series(case):
                 key=[n, bounds, case["buffer"], case["seed"], case["stick"], case["f32"]])
 
 
+# --------------------------------------------------------------------------
+# the featurizer built on all_rotamers: one state machine PER TRAJECTORY (each trajectory's first frame is binned
+# afresh; nothing is carried over from the end of the previous trajectory), lists and generators alike
+
+def _all_columns(t):
+    cols = []
+    for fam in ("phi", "psi", "chi"):
+        if fam == "chi":
+            ang = np.concatenate([rotamer.dihedral_angles(t, "chi%d" % i)[0] for i in range(1, 5)], axis=1)
+            bounds = [0, 120, 240, 360]
+        else:
+            ang = rotamer.dihedral_angles(t, fam)[0]
+            bounds = [0, 180, 360]
+            if fam == "psi":
+                ang = ang - 100
+                ang[ang < 0] += 360
+                bounds = [0, 160, 360]
+        for j in range(ang.shape[1]):
+            cols.append((fam, ang[:, j], bounds))
+    return cols
+
+
+@st.composite
+def featurizer_case(draw):
+    k = draw(st.integers(1, 4))
+    return {"buffer": draw(st.sampled_from([0, 5, 7.5, 15, 15, 15, 30, 45, 59, 90, 100])),
+            "pieces": [{"start": draw(st.integers(0, 4500)), "stride": draw(st.sampled_from([1, 1, 7, 50])),
+                        "n": draw(st.integers(1, 25))} for _ in range(k)],
+            "as": draw(st.sampled_from(["list", "generator", "tuple"])),
+            "default_buffer": draw(st.sampled_from([False, False, False, True]))}
+
+
+def run_featurizer(case):
+    from enspara.cards import featurizers
+    full = _test_traj()
+    trjs = [full[p["start"]::p["stride"]][:p["n"]] for p in case["pieces"]]
+    buf = 15 if case["default_buffer"] else case["buffer"]
+    f = featurizers.RotamerFeaturizer() if case["default_buffer"] else featurizers.RotamerFeaturizer(buffer_width=buf)
+    arg = {"list": lambda: list(trjs), "tuple": lambda: tuple(trjs), "generator": lambda: (t for t in trjs)}[case["as"]]()
+    f.fit(arg)
+    got = f.feature_trajectories_
+    require(len(got) == len(trjs), "featurizer: number of feature trajectories != number of trajectories",
+            got=len(got), want=len(trjs))
+    carried = 0         # a column where a machine run over the JOINED series would differ from the per-trajectory ones
+    prev_end = None
+    for k, t in enumerate(trjs):
+        cols = _all_columns(t)
+        g = np.asarray(got[k])
+        require(g.shape == (t.n_frames, len(cols)), "featurizer: feature trajectory has the wrong shape",
+                trajectory=k, got=g.shape, want=(t.n_frames, len(cols)))
+        ends = []
+        for j, (fam, ang, bounds) in enumerate(cols):
+            vals = [float(a) for a in ang]
+            if min_gate_dist_all(vals, gate_values(bounds, float(buf))) < 1e-4:
+                ends.append(None)
+                continue
+            ref = ref_machine(vals, bounds, float(buf))
+            ends.append(ref[-1])
+            if prev_end is not None and prev_end[j] is not None and prev_end[j] != ref[0] and \
+                    in_widened(vals[0], prev_end[j], bounds, float(buf)):
+                carried += 1
+            if [int(x) for x in g[:, j]] != ref:
+                i = next(q for q in range(len(ref)) if int(g[q, j]) != ref[q])
+                raise Violation("RotamerFeaturizer(buffer_width=%s).fit: trajectory %d of %d, column %d (%s) differs from "
+                                "the hysteresis machine started afresh on that trajectory | frame=%d angle=%r got=%d "
+                                "want=%d" % (buf, k, len(trjs), j, fam, i, vals[i], int(g[i, j]), ref[i]))
+        prev_end = ends
+    require([int(x) for x in f.n_feature_states_] == [len(b) - 1 for _, _, b in _all_columns(trjs[0][:1])],
+            "featurizer: n_feature_states_ does not give the basins per dihedral")
+    return Info(carried > 0, ["n_trajs=%d" % len(trjs), "as=" + case["as"], "feat_buffer=%s" % buf,
+                              "joined_series_would_differ=%s" % (carried > 0)])
+
+
 def min_gate_dist_all(vals, gates):
     if not gates:
         return 1.0
@@ -893,5 +966,8 @@ CLAUSES = [
            doc="16383..70000 frames (seeded walk lingering at the basin boundaries) vs the reference machine"),
     Clause("trajectory_entry_points", traj_case(), run_traj, quick=200, thorough=3000,
            doc="phi/psi/chi/all_rotamers on slices of the repository's test trajectory vs the reference machine per dihedral"),
+    Clause("featurizer_per_trajectory", featurizer_case(), run_featurizer, quick=120, thorough=2000,
+           doc="RotamerFeaturizer.fit on 1..4 pieces of the test trajectory (list / tuple / generator): every feature "
+               "trajectory is the reference machine started afresh on that trajectory"),
     Clause("rotamers_then_transitions", history_case(), run_pipeline, quick=300, thorough=5000),
 ]
